@@ -331,7 +331,7 @@ def r17_14(run, model):
             run.ob("R17.14", f"{f.name}|all bounds of a type parameter are recorded", ok, site(TOPLEVEL, sel[0]["sp"]), f"bounds visited by: {sel[1][:70]}",
                    witness="impl Logger { fn log[T: Pretty + Debug](self, x: T) { x.render() } } with render in both traits: no ambiguity error, the "
                            "first-written bound wins; swapping the bounds switches the implementation")
-    run.floor("functions recording type-parameter bounds", n, 2)
+    run.floor("functions recording type-parameter bounds", n, 1)
 
 
 def r17_18(run, model):
@@ -473,7 +473,7 @@ def r17_16(run, model):
                 run.ob("R17.16", f"{f.name}|use #{k_} of resolve_trait_name keeps the resolved name", ok, site(rel, c["sp"]), why,
                        witness="package Lib: fn tag_path[T: Show](x: T) { Show::tag(x, 1) } fails with `Type parameter T is not constrained by trait "
                                "Lib::Show` while x.tag(1) through the same bound is accepted")
-    run.floor("uses of resolve_trait_name", n, 9)
+    run.floor("uses of resolve_trait_name", n, 5)
 
 
 def run(run, model):
